@@ -39,6 +39,31 @@ CLAIMED = {
         design_ref="DESIGN.md section 5, C08",
         note="Partial: the full fixpoint theorem emit(parse(emit(parse w))) = emit(parse w) is not proved (only its ordering lemmas and normal-form idempotence facts); byte-level determinism below the abstract section stream is wasm-encoder's purity; cross-process determinism is exercised by the thorough tier. No axioms.",
         technique="Coq proof: emit-keeps-module + permutation-invariance of insertion sorts on injective keys; differential replay and repeated-emit oracle"),
+    "C06": dict(
+        text="Coq theorems on an executable model of passes::used (roots + worklist) and passes::gc over the module model, whose instruction edges are the callback log of the in-order traversal with the visited-reference table REGENERATED from src/ir/mod.rs: every entity reachable from an export, the start function, an active data segment, a retained element segment or a custom-section root is in the used set (completeness, any module, any graph shape), the used set is closed under 'refers to', only entities outside the used set are deleted, and exports / start / custom sections / configuration are untouched. Tied to the code by replaying (module, GC) cases on the models inside Coq and comparing the emitted section streams; independent oracles recompute reachability on the input binary with a separately written analysis, validate the output and compare exports.",
+        design_ref="DESIGN.md section 5, C06",
+        note="Partial: the behavioural half (same results/traps/host calls when executed) is implied only through 'nothing reachable is removed or altered' + the body round-trip theorems (C03); no execution semantics is modelled. Validity of the output after GC is observed, not proved; one recorded finding (ref.func whose only declarers are unreachable). Trusted: Coq kernel + vm_compute; hand-written GC model tied by differential replay; translator for visited_refs. No axioms.",
+        technique="Coq proof: worklist = least closed set containing the roots (soundness/completeness by induction on fuel with a measure on unmarked entities); frame lemmas for gc; differential replay evaluated in Coq"),
+    "C07": dict(
+        text="Coq theorems on the same GC model: the used set is EXACTLY the set reachable from the roots (precision: nothing unreachable is kept, apart from the documented first-memory residue which the model reproduces), gc keeps exactly the used entities in every arena, and running it again keeps the same sets (idempotence). Tied to the code as C06; independent oracles compare the entity counts of the output with an independent reachability analysis of the input, require a second run to change nothing, and require the type section to hold exactly the types still used.",
+        design_ref="DESIGN.md section 5, C07",
+        note="Trusted: as C06. The root set (declared segments, active segments of imported tables, first-memory residue) follows the code, as the property allows. No axioms.",
+        technique="Coq proof: used = reach (both inclusions), gc_keeps_exactly_used, idempotence of the kept sets; differential replay evaluated in Coq"),
+    "C18": dict(
+        text="Coq theorems on executable models of replace_imported_func / replace_exported_func (Model/Edit.v, over the module and builder models): replacing an import keeps the function id (hence every caller, table entry, export, start), turns its kind into Local with the same signature and the denoted body, deletes exactly the first import of that function and changes nothing else; replacing an export adds one function (next id, same signature, given body), leaves every existing function - the original included - untouched, retargets exactly the first export of it (name and kind kept) and changes nothing else; both are refused on functions that are not imported / not exported-and-local; the well-formedness premises are established by parsing, preserved by both edits, and shown necessary by refutation witnesses. Tied to the code by performing the edit on EVERY imported and exported function of fixtures and generated modules with real walrus and comparing the emitted section stream with the model's inside Coq; an independent oracle checks imports, exports, reference counts, signature and validity on the emitted binary.",
+        design_ref="DESIGN.md section 5, C18",
+        note="Partial: 'still emits valid wasm' is observed (validator) not proved; one recorded finding (retargeted export was the only declaration of a ref.func target). 'Runs the new body' is structural (same id / retargeted export), no execution semantics. Trusted: Coq kernel + vm_compute; hand-written Edit model tied by differential replay. No axioms.",
+        technique="Coq proof: inversion lemma per edit exposing the exact new module + frame equations; differential replay of edits evaluated in Coq"),
+    "C19": dict(
+        text="Coq theorems on the module-level parse and emit models: after a successful parse every index->id vector is 0..n-1 against arenas without tombstones (so input index k denotes arena item k), and arena item k is the record built from the k-th definition of that index space in the input, imports first (types, tables, memories, imports proved per section); the final id->index maps handed to custom sections are number(ids) where ids is the order in which the emitted sections list the entities (imports in import order, then local functions in the emitter's sort order, live tables/memories/globals/segments in arena order, sorted de-duplicated types), a lookup succeeds exactly for listed ids and returns the position. Tied to the code by the module-level replay; an independent oracle captures both maps through on_parse / CustomSection::data (also after GC) and compares, per index space, the entity at each index of the independently decoded input and output binaries.",
+        design_ref="DESIGN.md section 5, C19",
+        note="Trusted: Coq kernel + vm_compute; hand-written ParseM/EmitM models tied by differential replay; attribute plumbing regenerated (Gen/Attrs.v). Locals (parse-time) are covered by the oracle and the body-level case data, not by a module-level theorem. No axioms.",
+        technique="Coq proof: invariants over the payload fold (ids_consistent) and closed forms of the seven emit-time maps; differential replay + map capture evaluated against decoded binaries"),
+    "C20": dict(
+        text="Coq theorems decomposing 'no escalation' into every place a newer encoding could be introduced: block types keep their inline form (and small function types are de-escalated), every output operator is the image of an input operator under the regenerated codec (none invented; with C03: the same operator with renamed indices), no control operator is added except MVP else/end, branch immediates are unchanged, element segments keep kind and item encoding and a segment on emitted table index 0 uses the MVP form (the explicit form only for index <> 0), and the data-count section appears iff there is a data segment and (a passive segment or a local function that uses memory.init/data.drop). Tied to the code by the module-level replay with wasm-encoder's exact element-encoding rule; independent oracles validate input and output under every 'all but one proposal' set and several MVP+ sets, and compare element flag bytes and data-count presence directly.",
+        design_ref="DESIGN.md section 5, C20",
+        note="Partial: the validator (feature gating) itself is not modelled; its verdicts are observed per case. Multi-byte table/memory immediates are covered by C03's index renaming (same index) rather than a byte-length theorem. Trusted: Coq kernel + vm_compute; models tied by differential replay; wasmparser validator as oracle. No axioms.",
+        technique="Coq proof: origin lemma for every output operator of the normal form, counting lemma for control operators, case analysis of the element/data-count emitters; differential replay + reduced-feature validation"),
 }
 
 PENDING_REASON = "check not yet built in this snapshot (construction in progress per DESIGN.md section 10); an executable Coq model is planned, so this is not a claim that the technique cannot apply"
